@@ -1,6 +1,8 @@
 import Sm9.Proofs.RepIndep
 import Sm9.Proofs.FinalExp
 import Sm9.Proofs.MillerNafInstance
+import Sm9.Proofs.MillerNeg
+import Sm9.Proofs.MillerFrobEquivariant
 /-!
 # C03 — All pairing entry points agree and ignore the projective representative
 
@@ -64,5 +66,49 @@ theorem chain_independence_at_known_answer :
       = specMiller kaP.x kaP.y kaQ.x kaQ.y ^ ((q ^ 12 - 1) / r) ∧
     specMillerNaf kaP.x kaP.y kaQ.x kaQ.y ^ ((q ^ 12 - 1) / r) = kaExpected :=
   specMillerNaf_eq_specMiller_known_answer
+
+/-! ## the set on which `pairing()` and `fast_pairing()` agree is closed under the symmetries of the Miller function
+
+If the two entry points agree at `(P, Q)` they agree at `(−P, Q)`, `(P, −Q)` and `(P, [q]Q)` (hence on the whole orbit
+`{±P} × {±qʲ·Q}`): both values are the inverse, resp. the `q`-th power, of the common value at `(P, Q)`
+(Proofs/MillerNeg.lean, MillerFrobEquivariant.lean).  With `chain_independence_at_known_answer` this settles the
+agreement on the orbit of the standard's test vector; everywhere else it is decided by the correspondence check. -/
+private theorem inv_unique {g a b : Fq12} (ha : a * g = 1) (hb : b * g = 1) : a = b := by
+  have hg : g ≠ 0 := by
+    intro h; rw [h, mul_zero] at ha; exact zero_ne_one ha
+  exact mul_right_cancel₀ hg (ha.trans hb.symm)
+
+section orbit
+variable (P : G1) (Q : G2) (hPz : P.z ≠ 0) (hPv : G1.Valid P) (hQz : Q.z ≠ 0) (hQv : G2.Valid Q)
+  (k : Nat) (hk : G2.toAff Q = k • G2.toAff (G.one : G2))
+include hPz hPv hQz hQv hk
+
+theorem agreement_neg_left (h : Api.pairing P Q = Api.fast_pairing P Q) :
+    Api.pairing P.neg Q = Api.fast_pairing P.neg Q := by
+  obtain ⟨g, g', h1, h2, h3⟩ := Miller.pairing_neg_left P Q hPz hPv hQz hQv k hk
+  obtain ⟨f, f', e1, e2, e3⟩ := Miller.fast_pairing_neg_left P Q hPz hPv hQz hQv k hk
+  have hgf : g = f := by
+    have := h1.symm.trans (h.trans e1); injection this
+  subst hgf
+  rw [h2, e2, inv_unique h3 e3]
+
+theorem agreement_neg_right (h : Api.pairing P Q = Api.fast_pairing P Q) :
+    Api.pairing P Q.neg = Api.fast_pairing P Q.neg := by
+  obtain ⟨g, g', h1, h2, h3⟩ := Miller.pairing_neg_right P Q hPz hPv hQz hQv k hk
+  obtain ⟨f, f', e1, e2, e3⟩ := Miller.fast_pairing_neg_right P Q hPz hPv hQz hQv k hk
+  have hgf : g = f := by
+    have := h1.symm.trans (h.trans e1); injection this
+  subst hgf
+  rw [h2, e2, inv_unique h3 e3]
+
+theorem agreement_mul_q (h : Api.pairing P Q = Api.fast_pairing P Q) :
+    Api.pairing P (Q.mul Miller.qFr) = Api.fast_pairing P (Q.mul Miller.qFr) := by
+  obtain ⟨g, h1, h2⟩ := Miller.api_pairing_mul_q P Q hPz hPv hQz hQv k hk
+  obtain ⟨f, e1, e2⟩ := Miller.api_fast_pairing_mul_q P Q hPz hPv hQz hQv k hk
+  have hgf : g = f := by
+    have := h1.symm.trans (h.trans e1); injection this
+  subst hgf
+  rw [h2, e2]
+end orbit
 
 end Sm9.C03
